@@ -51,10 +51,11 @@ Verdict eval_c12(const Case &c) {
             sh.push_back(s);
         }
         std::vector<Avoid::JunctionRef *> js;
+        std::set<void *> mine;      // junctions and connectors created by the user (this harness)
         if (c.reg != 2) {
-            for (auto &j : c.junctions) js.push_back(new Avoid::JunctionRef(router, Avoid::Point(j.x, j.y)));
-            for (size_t i = 1; i < js.size(); i++) { auto *cr = new Avoid::ConnRef(router, Avoid::ConnEnd(js[c.parent[i]]), Avoid::ConnEnd(js[i])); cr->setRoutingType(Avoid::ConnType_Orthogonal); }
-            for (int t = 0; t < c.terminals; t++) { auto *cr = new Avoid::ConnRef(router, Avoid::ConnEnd(sh[t], 1), Avoid::ConnEnd(js[c.attach[t]])); cr->setRoutingType(Avoid::ConnType_Orthogonal); }
+            for (auto &j : c.junctions) { js.push_back(new Avoid::JunctionRef(router, Avoid::Point(j.x, j.y))); mine.insert((Avoid::Obstacle *)js.back()); }
+            for (size_t i = 1; i < js.size(); i++) { auto *cr = new Avoid::ConnRef(router, Avoid::ConnEnd(js[c.parent[i]]), Avoid::ConnEnd(js[i])); cr->setRoutingType(Avoid::ConnType_Orthogonal); mine.insert(cr); }
+            for (int t = 0; t < c.terminals; t++) { auto *cr = new Avoid::ConnRef(router, Avoid::ConnEnd(sh[t], 1), Avoid::ConnEnd(js[c.attach[t]])); cr->setRoutingType(Avoid::ConnType_Orthogonal); mine.insert(cr); }
             if (c.reg == 1) router->hyperedgeRerouter()->registerHyperedgeForRerouting(js[0]);
         } else {
             Avoid::ConnEndList terms;
@@ -63,8 +64,14 @@ Verdict eval_c12(const Case &c) {
         }
         std::vector<Poly> shapes = c.shapes;
         bool topologyChanged = false;
+        std::set<void *> prevDel;
         for (size_t step = 0; step <= c.moves.size() && v.ok; step++) {
             if (step > 0) { Avoid::Polygon poly = toPolygon(c.moves[step - 1].second); router->moveShape(sh[c.moves[step - 1].first], poly); shapes[c.moves[step - 1].first] = c.moves[step - 1].second; }
+            // objects the user already knew before this transaction (those reported deleted by the previous one are gone)
+            std::set<void *> before;
+            if (step == 0) before = mine;
+            for (Avoid::Obstacle *o : router->m_obstacles) if (!prevDel.count(o)) before.insert(o);
+            for (Avoid::ConnRef *cr : router->connRefs) if (!prevDel.count(cr)) before.insert(cr);
             router->processTransaction();
             std::string phase = fmt("after transaction %zu", step + 1);
             // both reports of this transaction: full rerouting (registered hyperedges) and local improvement
@@ -173,6 +180,17 @@ Verdict eval_c12(const Case &c) {
             // reported lists are consistent with the live objects
             if (!settled) for (auto *x : L.newJunctionList) if (!del.count(x) && !live.count(x))   /* (created and deleted in the same pass is reported in both lists) */ v.fail(phase + ": a junction reported as new is not a live object", "lists-inconsistent");
             if (!settled) for (auto *x : L.newConnectorList) if (!del.count(x) && !live.count(x)) v.fail(phase + ": a connector reported as new is not a live object", "lists-inconsistent");
+            // ... in both directions: nothing reported as new existed before the transaction, and every live connector or
+            // junction that did not exist before it is reported as new
+            if (!settled && v.ok) {
+                std::set<void *> rep;
+                for (auto *x : L.newJunctionList) rep.insert(x);
+                for (auto *x : L.newConnectorList) rep.insert(x);
+                for (void *x : rep) if (before.count(x)) { v.fail(phase + ": an object reported as new existed before the transaction", "lists-inconsistent-new-is-old"); break; }
+                if (v.ok) for (Avoid::Obstacle *o : router->m_obstacles) if (dynamic_cast<Avoid::JunctionRef *>(o) && !del.count(o) && !before.count(o) && !rep.count(o)) { v.fail(phase + ": a live junction created by this transaction is not in newJunctionList", "lists-inconsistent-new-unreported"); break; }
+                if (v.ok) for (Avoid::ConnRef *cr : router->connRefs) if (!del.count(cr) && !before.count(cr) && !rep.count(cr)) { v.fail(phase + ": a live connector created by this transaction is not in newConnectorList", "lists-inconsistent-new-unreported"); break; }
+            }
+            prevDel = del;
         }
         v.nontrivial = topologyChanged || c.reg != 0;
         if (topologyChanged) v.cls("topology-changed");
